@@ -29,8 +29,9 @@ class_model("HedTag", {
     "known": "Bool",            # bool(self._schema_entry)
 })
 
-class_model("HedGroup", {"_startpos": "Int", "_endpos": "Int", "_hed_string": "Str", "__str__": "Str"})
-class_model("HedString", {"_from_strings": "Opaque"}, bases=["HedGroup"])
+class_model("HedGroup", {"_startpos": "Int", "_endpos": "Int", "_hed_string": "Str", "__str__": "Str", "span": "Tuple[Int,Int]",
+                         "__bool__": "Bool"})       # bool(group) == bool(children)
+class_model("HedString", {"_from_strings": "List[HedString]"}, bases=["HedGroup"])
 
 
 def _format_error(interp, args, kwargs):
@@ -132,7 +133,22 @@ def _tag_base_has_attribute(interp, args, kwargs):
     return SV(BOOL, f(args[0].t, z3.StringVal(key) if isinstance(key, str) else interp.ctx.strs.to_native(key)))
 
 
+def _in_original(interp, args, kwargs):
+    """HedGroup.check_if_in_original(x): trusted pure predicate (identity search in the original children)"""
+    f = z3.Function("in_original", z3.IntSort(), z3.IntSort(), z3.BoolSort())
+    r = f(args[0].t, args[1].t)
+    if isinstance(args[0], SV) and args[0].ty.name == "Ref":
+        # a group that holds something is not empty: bool(group) is True
+        truth = interp.engine.truth_of_object(interp.ctx, args[0])
+        if not isinstance(truth, bool):
+            interp.ctx.assume(z3.Implies(r, truth))
+    return SV(BOOL, r)
+
+
 if z3 is not None:
+    EXTERNS["HedString.check_if_in_original"] = _in_original
+    EXTERNS["HedGroup.check_if_in_original"] = _in_original
+    EXTERNS["in_original"] = _in_original
     EXTERNS["HedTag.base_tag_has_attribute"] = _tag_base_has_attribute
     EXTERNS["base_has_attr"] = _tag_base_has_attribute
     EXTERNS["ErrorHandler.format_error"] = _format_error
@@ -152,3 +168,7 @@ TRUSTED = [
 # base tag after one slash.  Assumed of every HedTag (established by _calculate_to_canonical_forms, checked at run time by T3).
 HEDTAG_LAYOUT = ("len(original_tag.tag) == len(original_tag.org_base_tag) + (1 + len(original_tag.extension) "
                  "if len(original_tag.extension) > 0 else 0)")
+
+from pyvc.contract import CLASSES
+for _c in ("HedTag", "HedGroup", "HedString"):
+    CLASSES[_c]["opaque_methods"] = True      # in frame-only (havoc) contracts their unmodelled methods are opaque calls
